@@ -330,7 +330,7 @@ def findD (fuel : Nat) (root : Val) (sp : Pos) (ps entry : Bool) (toks : List St
   else if !name.isEmpty then
     -- ####### key step #######
     if name = ['.', '.'] then
-      let up := ((splitChar '/' found).filter (fun t => !t.isEmpty)).dropLast
+      let up := ((splitChar '/' (fixBr found)).filter (fun t => !t.isEmpty)).dropLast
       match findD fuel root sp ps false up (.at sp) rl slash with
       | .error e => .error e
       | .ok (root, cur) =>
